@@ -1,15 +1,49 @@
 import RxVerif.Machine.Case
+import RxVerif.Oracle
 open Rx
 
-partial def loop (h : IO.FS.Stream) (out : IO.FS.Stream) : IO Unit := do
+partial def sexpMentions (a : String) : Sexp → Bool
+  | .atom s => s == a
+  | .list xs => xs.any (sexpMentions a)
+
+def oracleLine (caseLine obsLine : String) : String :=
+  match Sexp.parse caseLine, Oracle.parseLine obsLine with
+  | some (.list (.atom "case" :: .atom id :: steps)), some (_, obs) =>
+    let unsubAt := steps.map fun s => match s with
+      | .list [.atom "unsub", n] => n.asNat
+      | _ => none
+    let selfUnsub := steps.any fun s => match s with
+      | .list [.atom "sub", _, r] => sexpMentions "unsub" r
+      | _ => false
+    let fmt := fun (name : String) (r : Option String) =>
+      name ++ "=" ++ (match r with | none => "ok" | some m => "VIOL(" ++ m.replace " " "_" ++ ")")
+    id ++ " " ++ " ".intercalate [
+      fmt "C01" (Oracle.contract obs),
+      fmt "C05" (Oracle.c05 obs unsubAt selfUnsub),
+      fmt "C06" (Oracle.c06 obs unsubAt),
+      fmt "C07" (Oracle.c07 obs),
+      fmt "C14" (Oracle.c14 obs),
+      fmt "C17" (Oracle.c17 obs)]
+  | _, _ => "ORACLE-PARSE-ERROR " ++ obsLine
+
+partial def loopRun (h out : IO.FS.Stream) : IO Unit := do
   let line ← h.getLine
   if line.isEmpty then return ()
   let l := line.trimAscii.toString
-  if l.isEmpty then loop h out else
+  if l.isEmpty then loopRun h out else
   out.putStrLn (runCase l)
-  loop h out
+  loopRun h out
 
-def main (_args : List String) : IO Unit := do
+partial def loopOracle (h out : IO.FS.Stream) : IO Unit := do
+  let c ← h.getLine
+  if c.isEmpty then return ()
+  let o ← h.getLine
+  out.putStrLn (oracleLine c.trimAscii.toString o.trimAscii.toString)
+  loopOracle h out
+
+def main (args : List String) : IO Unit := do
   let stdin ← IO.getStdin
   let stdout ← IO.getStdout
-  loop stdin stdout
+  match args with
+  | ["oracle"] => loopOracle stdin stdout
+  | _ => loopRun stdin stdout
